@@ -110,6 +110,78 @@ def _dot_consistent(conds: Sequence[Tuple[str, bool, ast.AST]], sign: float, fol
     return True if seen else None
 
 
+def _resolve_case(repo, fi: FuncInfo, e: ast.expr, lower_first: bool, sign: float, fold) -> ast.expr:
+    """The expression in one of the four cases: tests of the residue order and of the sign of dot(n_i, n_j) become constants,
+    look-ups in module-level constant tables are folded (`TABLE[(in_order, same_direction)]`)."""
+    from sa.consteval import Folder
+
+    order = {"residue_i < residue_j": lower_first, "residue_i <= residue_j": lower_first, "residue_j < residue_i": not lower_first, "residue_j <= residue_i": not lower_first, "residue_j > residue_i": lower_first, "residue_i > residue_j": not lower_first}
+
+    class R(ast.NodeTransformer):
+        def visit_Compare(self, n):
+            t = norm(n)
+            if t in order:
+                return ast.Constant(value=order[t])
+            if any(isinstance(x, ast.Call) and norm(x.func) in ("numpy.dot", "np.dot") for x in ast.walk(n)):
+                try:
+                    return ast.Constant(value=bool(intervals.evaluate(n, lambda x: sign if isinstance(x, ast.Call) and norm(x.func) in ("numpy.dot", "np.dot") else None, fold)))
+                except Exception:
+                    return n
+            self.generic_visit(n)
+            return n
+
+        def visit_Call(self, n):
+            self.generic_visit(n)
+            if isinstance(n.func, ast.Name) and n.func.id == "bool" and len(n.args) == 1 and isinstance(n.args[0], ast.Constant):
+                return ast.Constant(value=bool(n.args[0].value))
+            return n
+
+        def visit_Subscript(self, n):
+            self.generic_visit(n)
+            if isinstance(n.value, ast.Name) and n.value.id in fi.module.consts and not any(isinstance(x, ast.Name) for x in ast.walk(n.slice)):
+                try:
+                    v = Folder(repo, fi.module.name).fold(ast.fix_missing_locations(copy.deepcopy(n)))
+                    if isinstance(v, (str, bool, int)):
+                        return ast.Constant(value=v)
+                except Exception:
+                    pass
+            return n
+
+    return ast.fix_missing_locations(R().visit(copy.deepcopy(e)))
+
+
+def recorded_cases(chk, fi: FuncInfo, recs, fold, label_of):
+    """The recorded triple in the four (residue order, direction of the normals) cases, read from the recording paths:
+    ({(lower_first, same): (first, second, label, node)}, problems, a path records without deciding the direction)."""
+    cases: Dict[Tuple[bool, bool], Tuple[Optional[str], Optional[str], Optional[str], ast.AST]] = {}
+    problems: List[str] = []
+    undirected = False
+    for p, e in recs:
+        conds = list(p.conds) + list(e.guards)
+        lower = c03e._lower_of(conds)
+        t = e.args[0] if e.args else None
+        if not (isinstance(t, ast.Tuple) and len(t.elts) == 3):
+            problems.append(f"recorded value `{e.text()[:70]}` is not a triple")
+            continue
+        a, b = norm(t.elts[0]), norm(t.elts[1])
+        for same, sign in ((True, 1.0), (False, -1.0)):
+            cons = _dot_consistent(conds, sign, fold)
+            in_label = any(isinstance(x, ast.Call) and norm(x.func) in ("numpy.dot", "np.dot") for x in ast.walk(t.elts[2]))
+            if cons is None and not in_label:
+                undirected = True
+            if cons is False:
+                continue
+            env = {"same_direction": same}
+            for lf in ((True, False) if lower is None else (lower == "i",)):
+                lab = label_of(_resolve_case(chk.repo, fi, t.elts[2], lf, sign, fold), env)
+                key = (lf, same)
+                val = (a if a in ("residue_i", "residue_j") else None, b if b in ("residue_i", "residue_j") else None, lab, e.node)
+                if key in cases and cases[key][:3] != val[:3]:
+                    problems.append(f"case lower_first={lf}, same_direction={same}: recorded both as {cases[key][:3]} and {val[:3]}")
+                cases[key] = val
+    return cases, problems, undirected
+
+
 def check_pair_loop(chk, fi: FuncInfo, loop: ast.For, sites: c03e.Sites, c: Dict[str, Any], fold, label_of, eq_fields) -> str:
     """Returns the name of the list the triples are recorded in."""
     paths = SX.Executor(nonnull=sites.nonnull, rewrite=sites.rewrite).run(loop.body)
@@ -250,31 +322,7 @@ def check_pair_loop(chk, fi: FuncInfo, loop: ast.For, sites: c03e.Sites, c: Dict
         chk.ok("stack-extra-filter", fi.site(loop), f"{n_silent} paths record nothing: missing normal, normal-normal angle, offset angle - nothing else")
 
     # ---- direction and labels -----------------------------------------------------------------------------------------------
-    cases: Dict[Tuple[bool, bool], Tuple[Optional[str], Optional[str], Optional[str], ast.AST]] = {}
-    problems: List[str] = []
-    undirected = False
-    for p, e in recs:
-        conds = list(p.conds) + list(e.guards)
-        lower = c03e._lower_of(conds)
-        t = e.args[0] if e.args else None
-        if not (isinstance(t, ast.Tuple) and len(t.elts) == 3):
-            problems.append(f"recorded value `{e.text()[:70]}` is not a triple")
-            continue
-        a, b = norm(t.elts[0]), norm(t.elts[1])
-        for same, sign in ((True, 1.0), (False, -1.0)):
-            cons = _dot_consistent(conds, sign, fold)
-            if cons is None:
-                undirected = True
-            if cons is False:
-                continue
-            env = {"same_direction": same}
-            lab = label_of(t.elts[2], env)
-            for lf in ((True, False) if lower is None else (lower == "i",)):
-                key = (lf, same)
-                val = (a if a in ("residue_i", "residue_j") else None, b if b in ("residue_i", "residue_j") else None, lab, e.node)
-                if key in cases and cases[key][:3] != val[:3]:
-                    problems.append(f"case lower_first={lf}, same_direction={same}: recorded both as {cases[key][:3]} and {val[:3]}")
-                cases[key] = val
+    cases, problems, undirected = recorded_cases(chk, fi, recs, fold, label_of)
     want_dir = "same_direction <=> dot(normal_i, normal_j) > 0"
     if undirected:
         chk.violation("stack-direction", fi.site(loop), "a pair is recorded on a path that takes no decision on the sign of dot(normal_i, normal_j): the label cannot depend on whether the normals point the same way", K(fi, "direction"))
@@ -318,3 +366,22 @@ def check_registration(chk, fi: FuncInfo, sites: c03e.Sites) -> None:
     regs = [r for r in regs if r[1] or r[2]]
     ok = bool(regs) and all(len(a) == 1 and len(s) == 1 and norm(s[0].args[0]) == norm(a[0].args[0]) and isinstance(s[0].args[1], ast.Name) and s[0].args[1].id == sites.res_var and not a[0].loops and not s[0].loops for p, a, s in regs)
     chk.expect(ok, "centroid-register", fi.site(sites.res_loop), "one centroid per residue is registered for the search and mapped back to its residue (same key, once, on every registering path)", "the centroid is not registered once in the list of points and mapped to its residue under the same key", K(fi, "centroid-register"))
+
+
+def check_orientation(chk, fi: FuncInfo, loop: ast.For, sites: c03e.Sites, fold, label_of, rule: str = "stack-orientation") -> None:
+    """C11: every recorded stacking names the lower residue first (the later sorted() orders the list, it does not re-orient a pair)."""
+    paths = SX.Executor(nonnull=sites.nonnull, rewrite=sites.rewrite).run(loop.body)
+    stores = sorted({e.recv for p in paths for e in p.effects if e.kind == "call" and e.method == "append" and e.recv in sites.nonnull})
+    if len(stores) != 1:
+        raise NotReadable(f"the stacking loop appends to {stores}, expected one list of triples")
+    recs = [(p, e) for p in paths for e in p.effects if e.recv == stores[0] and e.method == "append"]
+    cases, problems, undirected = recorded_cases(chk, fi, recs, fold, label_of)
+    if problems or len(cases) != 4 or any(None in v[:2] for v in cases.values()):
+        chk.error(rule, fi.site(loop), "; ".join(problems[:2]) or "recorded stacking not evaluable in some (order, direction) case")
+        return
+    bad = {}
+    for (lf, same), (a, b, lab, site) in cases.items():
+        want = ("residue_i", "residue_j") if lf else ("residue_j", "residue_i")
+        if (a, b) != want:
+            bad[f"residue_i {'<' if lf else '>'} residue_j"] = [a, b]
+    chk.expect(not bad, rule, fi.site(loop), "every stacking is recorded with the lower residue first (both residue orders evaluated)", f"a stacking is recorded with the higher residue first when {sorted(bad)[0] if bad else ''}: `{bad}` - the list is sorted afterwards but a pair is never re-oriented, so the same contact is (a, b) or (b, a) depending on the order of the residues in the file", K(fi, "stack-orientation"), found=bad)
